@@ -1,5 +1,6 @@
 import BqVerif.Proofs.Sched
 import BqVerif.Proofs.Link
+import BqVerif.Proofs.NodeInv
 import BqVerif.Model.RuntimeWitness
 /-!
 # C15 — scheduler bookkeeping stays in bounds and assigns every task exactly once
@@ -111,6 +112,36 @@ theorem C15_assertion_unreachable (b : Boss) (ei : Nat) (n : Int) (r : Option Ad
   have := waiting_inv b ei n r h henv
   intro he; rw [he] at this; exact this rfl
 
+/-- (b) **Per-node counter invariant in manager trees.**  Every message handler of a `Manager`
+    (`handle_message`, from above and from below, any message, any assignment) keeps the
+    bookkeeping invariant of its own employees - idle counts within `0 … total_workers`, their sum
+    equal to the node's `num_idle_workers`, totals adding up - as long as the manager keeps
+    running, provided the employee that sends a WAITING reports at most its own size. -/
+theorem C15_T_manager_counters (g : Manager) (src : NodeId) (m : Msg) (asg : List Nat) (h : BossInv g.boss)
+    (henv : ∀ ei, waitingOK g.boss ei m) (hr : (g.handle src m asg).st.running = true) :
+    BossInv (g.handle src m asg).st.boss
+    ∧ 0 ≤ (g.handle src m asg).st.boss.numIdle
+    ∧ (g.handle src m asg).st.boss.numIdle ≤ (g.handle src m asg).st.boss.total :=
+  ⟨Manager.handle_inv g src m asg h henv hr, (Manager.handle_inv g src m asg h henv hr).assertion.1,
+   (Manager.handle_inv g src m asg h henv hr).assertion.2⟩
+
+/-- (b) the same for the server (`DetachedServer.handle_message`: messages from clients and from
+    below, including cancellation of compilations, disconnects in any iteration order, errors). -/
+theorem C15_T_server_counters (s : Server) (src : NodeId) (m : Msg) (asg ord : List Nat) (h : BossInv s.boss)
+    (henv : ∀ ei, waitingOK s.boss ei m) (hr : (s.handle src m asg ord).st.running = true) :
+    BossInv (s.handle src m asg ord).st.boss :=
+  Server.handle_inv s src m asg ord h henv hr
+
+/-- non-vacuity: a manager over two workers schedules a batch from above and keeps running -/
+example :
+    let es : List Emp := [{ id := 0, total := 1, idle := 1 }, { id := 1, total := 1, idle := 1 }]
+    let b : Boss := { lb := 0, step := 1, numIdle := 2, total := 2, emps := es }
+    let g : Manager := { boss := b, idx := 0, lastSent := 2 }
+    let t : Task := { addr := ⟨-1, 0, 0⟩, comp := 0, crumbs := [], prog := 0, tag := [0] }
+    BossInv g.boss ∧ (g.handle .server (.submit t) [0]).st.running = true
+    ∧ (g.handle .server (.submit t) [0]).st.boss.numIdle = 1 := by
+  refine ⟨⟨by decide, by decide, by decide⟩, by decide, by decide⟩
+
 /-- the initial state of a node over workers satisfies the invariant -/
 example : BossInv (Net.initFlat [] true 2 1).server.boss :=
   ⟨by decide, by decide, by decide⟩
@@ -134,6 +165,27 @@ theorem C15_num_tasks_nonneg (e : Emp) (ops : List LinkOp) (l : Link)
 example : ∃ l, (Link.init { id := 0, total := 1, idle := 1 }).run
     [.send ⟨0, 0, 0⟩ 2, .emitWaiting 1, .recvDown, .recvUp, .finish, .emitWaiting 1, .recvUp,
      .recvUp] = .ok l := ⟨_, rfl⟩
+
+/-- (c) **holds without cancellation, and the drift is exactly the discarded tasks** (link
+    machine): whenever nothing is in flight on the link in either direction, the boss's
+    `num_tasks` for the employee equals the number of tasks the employee holds plus the number of
+    tasks that CANCELs removed from it; so in a run in which no task is discarded it is exact. -/
+theorem C15_exact_without_cancel (e : Emp) (ops : List LinkOp) (l : Link)
+    (h : (Link.init e).run ops = .ok l) (hd : l.down = []) (hu : l.up = []) :
+    l.emp.numTasks = ((l.held + l.dropped : Nat) : Int)
+    ∧ ((∀ op ∈ ops, op.isDiscard = false) → l.emp.numTasks = (l.held : Int)) := by
+  have hc := (LinkInv.run ops (LinkInv.init e) h).count
+  rw [hd, hu] at hc
+  simp only [List.map_nil, List.sum_nil, donesOf] at hc
+  refine ⟨by rw [hc]; congr 1; omega, fun hn => ?_⟩
+  have := Link.run_dropped ops h hn
+  rw [hc]
+  simp only [Link.init] at this
+  rw [this]; simp
+
+example : ∃ l, (Link.init { id := 0, total := 1, idle := 1 }).run
+    [.send ⟨0, 0, 0⟩ 2, .recvDown, .finish, .recvUp] = .ok l ∧ l.down = [] ∧ l.up = [] ∧ l.held = 1
+    ∧ l.emp.numTasks = 1 := ⟨_, rfl, rfl, rfl, rfl, rfl⟩
 
 /-- (c) is **false of the code after a cancellation**: the model (which follows the code)
     reaches an idle state - all channels empty, the worker blocked, holding no task, no
